@@ -25,6 +25,7 @@ C_FUNCS = [
     ("tables.c", "subset_ragged_char_column"),
     ("tables.c", "check_offsets"),
 ]
+BOUNDED = [{"name": "list_model", "module": "standins.c13_listmodel", "timeout": 900}]
 UNVERIFIED = ["row operations of the edge/site/mutation/migration/individual/population/provenance tables",
               "tsk_*_table_update_row, _extend, _append_columns, _set_columns, _takeset_columns, _keep_rows, _copy",
               "python/tskit/tables.py facade", "TreeSequence immutability (numpy flags in _tskitmodule.c)"]
